@@ -18,8 +18,20 @@ pub struct WriteCase {
     pub policy: Vec<WriteStep>,
 }
 
+/// frames decode to the packets that are written; the one-byte pseudo frames [0xFF] / [0xFE] stand for packets that are
+/// too large for the size mode (60 CompCars = 1684 bytes: refused in both modes; 70 handicaps = 284 bytes: refused uncompressed)
 fn packets(c: &WriteCase, mode: &Mode) -> Vec<Packet> {
-    c.frames.iter().filter_map(|f| decode_one(f, mode).ok()).collect()
+    c.frames
+        .iter()
+        .filter_map(|f| {
+            if f.len() == 1 {
+                let tape = [7u8; 16];
+                let mut t = crate::refs::image::Tape::new(&tape);
+                return if f[0] == 0xFF { crate::refs::build::counted_packet("Mci", 60, &mut t) } else { crate::refs::build::counted_packet("Plh", 70, &mut t) };
+            }
+            decode_one(f, mode).ok()
+        })
+        .collect()
 }
 
 fn run_blocking_writes(mode: &Mode, pkts: &[Packet], policy: &[WriteStep]) -> Result<(Vec<u8>, Vec<String>, Vec<Event>), String> {
@@ -65,17 +77,34 @@ pub fn judge(c: &WriteCase, ev: &mut Local) -> Result<(), Fail> {
     let codec = Codec::new(mode.clone());
     let mut expected = vec![];
     let mut encodable = vec![];
+    let mut should_ok = vec![];
+    let mut refused = 0usize;
     for p in &pkts {
-        if let Ok(Ok(b)) = guard(|| codec.encode(p)) {
-            expected.extend_from_slice(&b);
-            encodable.push(p.clone());
+        match guard(|| codec.encode(p)) {
+            Ok(Ok(b)) => {
+                expected.extend_from_slice(&b);
+                encodable.push(p.clone());
+                should_ok.push(true);
+            },
+            Ok(Err(_)) => {
+                // a packet the encoder refuses must be refused by write() too - and must leave no trace on the wire
+                encodable.push(p.clone());
+                should_ok.push(false);
+                refused += 1;
+            },
+            Err(_) => {},
         }
     }
     let m = mode_name(&mode);
     for (which, r) in [("blocking", run_blocking_writes(&mode, &encodable, &c.policy)), ("tokio", run_tokio_writes(&mode, &encodable, &c.policy))] {
         let (written, rets, trace) = r.map_err(|p| Fail::new("c06:panic", format!("{which}: {p}")))?;
-        if let Some(bad) = rets.iter().find(|r| *r != "Ok") {
-            fail!("c06:write-returned-error", "{which} ({m}): write returned {bad} although the transport never failed");
+        for (i, (r, ok)) in rets.iter().zip(should_ok.iter()).enumerate() {
+            if *ok && r != "Ok" {
+                fail!("c06:write-returned-error", "{which} ({m}): write #{i} returned {r} although the transport never failed");
+            }
+            if !*ok && r == "Ok" {
+                fail!("c06:refused-packet-reported-written", "{which} ({m}): write #{i} of a packet the encoder refuses returned Ok");
+            }
         }
         if written != expected {
             let sig = if written.len() < expected.len() { "c06:bytes-lost-on-partial-write" } else { "c06:bytes-duplicated-or-reordered" };
@@ -92,6 +121,9 @@ pub fn judge(c: &WriteCase, ev: &mut Local) -> Result<(), Fail> {
         ev.class("partial-acceptance");
     } else {
         ev.class("transport-accepts-everything");
+    }
+    if refused > 0 {
+        ev.class("sequence-contains-refused-packets");
     }
     ev.max("packets", encodable.len() as u64);
     ev.max("bytes", expected.len() as u64);
@@ -174,7 +206,7 @@ pub fn run(run: &mut Run) {
     run.rule = "Packet sequences (1..20 packets decoded from conformant frames of all kinds, sizes 4..1020) are written through a blocking \
         and a tokio connection whose scripted transport accepts k in 1..=offered bytes per call (biased to 1, a few, all) and, for tokio, \
         returns Pending any number of times. Oracle: the bytes accumulated by the transport equal the concatenation of the encoder's frames \
-        and every write returned Ok. Complete: all 128 acceptance patterns of an 8-byte frame (written twice) x 2 modes. Non-trivial = \
+        and every write returned Ok; packets too large for the size mode are interspersed: their write must return an error and leave nothing on the wire, and the frames written after them must still be intact. Complete: all 128 acceptance patterns of an 8-byte frame (written twice) x 2 modes. Non-trivial = \
         at least one call accepted less than offered or returned Pending."
         .into();
     run.assumptions = vec!["the expected byte stream is the concatenation of Codec::encode of each packet (C01-C03 judge the encoder)".into()];
@@ -191,7 +223,14 @@ pub fn run(run: &mut Run) {
     );
     let strat = (any::<bool>(), proptest::collection::vec(frame_strategy(1, 1), 1..20), policy).prop_map(|(compressed, frames, policy)| {
         let mode = if compressed { Mode::Compressed } else { Mode::Uncompressed };
-        WriteCase { compressed, frames: frames.iter().map(|f| frame_bytes(f, &mode)).collect(), policy }
+        let mut fr: Vec<Vec<u8>> = frames.iter().map(|f| frame_bytes(f, &mode)).collect();
+        // now and then the application tries to send something too large for the size mode
+        for (i, f) in frames.iter().enumerate() {
+            if let FrameSpec::BadEnum(x) = f {
+                fr[i] = vec![if x % 2 == 0 { 0xFF } else { 0xFE }];
+            }
+        }
+        WriteCase { compressed, frames: fr, policy }
     });
     let n = run.budget(20_000, 1_000_000);
     run.prop(&Writes, strat, n);
